@@ -60,6 +60,14 @@ def rec_scc_inside(v, dbl, pad=False):
           "\n\n00:00:01:20\t9420 9420 c3c4 942f 942f\n\n00:00:05:00\t942c 942c\n\n")
 
 
+def rec_scc_resume(v, dbl, pad=False):
+  """Channel-1 codes sent ONCE each (no doubling): a channel-1 line ends with a resume code, the word under test follows on
+  its own line, and channel 1 goes on with the very same resume code - which is a new code, not the second copy of a pair."""
+  mid = " ".join([_w(0)] * (2 if dbl else 1)) if pad else " ".join([_w(v)] * (2 if dbl else 1))
+  return ("Scenarist_SCC V1.0\n\n00:00:01:00\t9420 9470 c1c2 9420\n\n00:00:01:10\t" + mid +
+          "\n\n00:00:01:20\t9420 c3c4 942f\n\n00:00:05:00\t942c\n\n")
+
+
 def _doc_digest(text):
   import ttconv.scc.reader as reader
   import ttconv.model as m
@@ -132,6 +140,9 @@ def ignored_records():
           d = _doc_digest(rec_scc_inside(v, dbl))
           ref = _doc_digest(rec_scc_inside(v, dbl, pad=True))
           out.append({"kind": "ign", "v": v, "dbl": dbl, "same": 1 if d == ref else 0, "doc": d[:300], "ref": ref[:300], "inside": 1})
+          d = _doc_digest(rec_scc_resume(v, dbl))
+          ref = _doc_digest(rec_scc_resume(v, dbl, pad=True))
+          out.append({"kind": "ign", "v": v, "dbl": dbl, "same": 1 if d == ref else 0, "doc": d[:300], "ref": ref[:300], "inside": 2})
   return out
 
 
@@ -245,6 +256,20 @@ def lex_disassembly(text):
   return head, toks
 
 
+def _make_word(SccWord, x, route):
+  import copy
+  route %= 5
+  if route == 0:
+    return SccWord.from_value(x)
+  if route == 1:
+    return SccWord.from_bytes(x >> 8, x & 0xFF)
+  if route == 2:
+    return SccWord((x >> 8) & 0x7F, x & 0x7F)        # (the constructor takes the two bytes without their parity bits)
+  if route == 3:
+    return copy.deepcopy(SccWord.from_value(x))
+  return SccWord.from_str("%04x" % x)
+
+
 def _spell(x, variant):
   """Four hexadecimal digits for a word, as files spell them."""
   hi, lo = (x >> 8) & 0x7F, x & 0x7F
@@ -318,7 +343,9 @@ def run(ctx):
         recs.append({"kind": "dis", "ws": list(ws), "show": show, "head": 0, "toks": []})
         continue
     else:
-      line = SccLine(SmpteTimeCode.parse("00:00:00:00", FPS_30), [SccWord.from_value(x) for x in ws])
+      # the word objects are made through every public way there is (and copied, as a caller that keeps lines around does):
+      # what a word is depends on its value, not on which object holds it
+      line = SccLine(SmpteTimeCode.parse("00:00:00:00", FPS_30), [_make_word(SccWord, x, k + j) for j, x in enumerate(ws)])
     text = line.to_disassembly(show_channels=bool(show))
     head, toks = lex_disassembly(text)
     recs.append({"kind": "dis", "ws": list(ws), "show": show, "head": head, "toks": toks})
